@@ -594,20 +594,17 @@ void convex_hull(const Array<Vec2> points, Array<Vec2>& result) {
             qh_facet = qh_nextfacet2d(qh_facet, &qh_vertex);
         }
     } else if (exitcode == qh_ERRsingular) {
-        // QHull errors for singular input (collinear points in 2D)
-        Vec2 min = {DBL_MAX, DBL_MAX};
-        Vec2 max = {-DBL_MAX, -DBL_MAX};
+        // QHull errors for singular input (collinear points in 2D): the hull is the segment between
+        // the two extreme points (lexicographic order picks them whatever the slope of the line)
         Vec2* p = points.items;
+        Vec2 lo = *p;
+        Vec2 hi = *p;
         for (uint64_t num = points.count; num > 0; num--, p++) {
-            if (p->x < min.x) min.x = p->x;
-            if (p->x > max.x) max.x = p->x;
-            if (p->y < min.y) min.y = p->y;
-            if (p->y > max.y) max.y = p->y;
+            if (p->x < lo.x || (p->x == lo.x && p->y < lo.y)) lo = *p;
+            if (p->x > hi.x || (p->x == hi.x && p->y > hi.y)) hi = *p;
         }
-        if (min.x < max.x) {
-            result.append(min);
-            result.append(max);
-        }
+        result.append(lo);
+        if (hi.x != lo.x || hi.y != lo.y) result.append(hi);
     } else {
         // The least we can do
         result.extend(points);
